@@ -25,6 +25,10 @@ Open Scope Z_scope.
     proved for both values; the NaN and zadd-partial witnesses hold for [false] only. *)
 Definition nan_refused : bool := false.
 
+(** after patches/fix-zrangebyscore-refuse-nan-bound.diff is applied this becomes [true]:
+    ZRANGEBYSCORE / ZREVRANGEBYSCORE / ZCOUNT refuse NaN as a bound *)
+Definition nan_bound_refused : bool := false.
+
 Definition zset := list (bytes * Z).
 Definition z2sl (z : zset) : sl :=
   {| sl_nodes := map (fun p => {| n_key := fst p; n_val := snd p; n_lvl := 0%nat |}) z;
@@ -84,8 +88,11 @@ Definition eng_zrank (d : db) (key m : bytes) (reverse : bool) : option (option 
 Definition sat_sub (a b : Z) : Z := Z.max 0 (a - b).
 Definition nodes_kv (l : list node) : zset := map (fun n => (n_key n, n_val n)) l.
 
-(** zrange: start/stop are isize; the index translation of engine.rs:875-909 *)
-Definition zrange_of (s : sl) (start stop : Z) (reverse : bool) : zset :=
+(** after patches/fix-zrange-index-normalisation.diff is applied to /repo this becomes [true] *)
+Definition zrange_fixed : bool := false.
+
+(** zrange: start/stop are isize; the index translation of engine.rs:875-909 (unchanged tree) *)
+Definition zrange_of_v1 (s : sl) (start stop : Z) (reverse : bool) : zset :=
   let ln := sl_len s in
   if ln =? 0 then [] else
   let start_idx := if start <? 0 then Z.max (ln + start) 0 else start in
@@ -96,6 +103,18 @@ Definition zrange_of (s : sl) (start stop : Z) (reverse : bool) : zset :=
     rev (nodes_kv (sl_range_by_rank s real_start real_stop))
   else if (ln <=? start_idx) || (stop_idx <? start_idx) then []
   else nodes_kv (sl_range_by_rank s (Z.min start_idx (ln - 1)) (Z.min stop_idx (ln - 1))).
+(** the repaired translation *)
+Definition zrange_of_v2 (s : sl) (start stop : Z) (reverse : bool) : zset :=
+  let ln := sl_len s in
+  if ln =? 0 then [] else
+  let start_i := Z.max (if start <? 0 then ln + start else start) 0 in
+  let stop_i := if stop <? 0 then ln + stop else stop in
+  if (stop_i <? start_i) || (ln <=? start_i) then [] else
+  let stop_idx := Z.min stop_i (ln - 1) in
+  if reverse then rev (nodes_kv (sl_range_by_rank s (ln - 1 - stop_idx) (ln - 1 - start_i)))
+  else nodes_kv (sl_range_by_rank s start_i stop_idx).
+Definition zrange_of (s : sl) (start stop : Z) (reverse : bool) : zset :=
+  if zrange_fixed then zrange_of_v2 s start stop reverse else zrange_of_v1 s start stop reverse.
 Definition eng_zrange (d : db) (key : bytes) (start stop : Z) (reverse : bool) : option zset :=
   with_zset d key [] (fun s => zrange_of s start stop reverse).
 
@@ -135,6 +154,16 @@ Definition eng_zincrby (d : db) (key m : bytes) (inc : Z) (sum : option Z) : opt
 Definition oscore (oracle : option frame) (i : nat) : option Z :=
   match oracle with
   | Some (FArray l) => match nth_error l i with Some (FDouble b) => Some b | _ => None end
+  | _ => None
+  end.
+(** a score bound: as [float_arg], NaN refused once repaired *)
+Definition bound_arg (parts : list frame) (oracle : option frame) (i : nat) : option Z :=
+  match nth_error parts i with
+  | Some (FBulk _) =>
+      match oscore oracle i with
+      | Some b => if nan_bound_refused && f_is_nan b then None else Some b
+      | None => None
+      end
   | _ => None
   end.
 (** a float argument: None = "not a bulk string" or "not a valid float" (both ERR) *)
@@ -279,10 +308,10 @@ Definition h_zrangebyscore (reverse : bool) (d : db) (parts : list frame) (oracl
   match nth_arg parts 1 with
   | None => (r_err, d)
   | Some key =>
-      match float_arg parts oracle 2 with
+      match bound_arg parts oracle 2 with
       | None => (r_err, d)
       | Some a =>
-          match float_arg parts oracle 3 with
+          match bound_arg parts oracle 3 with
           | None => (r_err, d)
           | Some b =>
               let mn := if reverse then b else a in
@@ -300,10 +329,10 @@ Definition h_zcount (d : db) (parts : list frame) (oracle : option frame) : fram
   match nth_arg parts 1 with
   | None => (r_err, d)
   | Some key =>
-      match float_arg parts oracle 2 with
+      match bound_arg parts oracle 2 with
       | None => (r_err, d)
       | Some mn =>
-          match float_arg parts oracle 3 with
+          match bound_arg parts oracle 3 with
           | None => (r_err, d)
           | Some mx =>
               match eng_zcount d key mn mx with
